@@ -882,8 +882,16 @@ def _strip_comments(line: bytes) -> bytes:
     comment_bytes = {ord(b"#"), ord(b";")}
     quote = ord(b'"')
     string_open = False
+    escaped = False
     # Normalize line to bytearray for simple 2/3 compatibility
     for i, character in enumerate(bytearray(line)):
+        # A backslash inside quotes escapes the next character (e.g. \")
+        if escaped:
+            escaped = False
+            continue
+        if string_open and character == ord(b"\\"):
+            escaped = True
+            continue
         # Comment characters outside balanced quotes denote comment start
         if character == quote:
             string_open = not string_open
